@@ -1427,6 +1427,18 @@ func c08WholeRuns(ctx *Ctx, res *Result, doc []c08Opt, rng *Rng) {
 			jobs = append(jobs, func() { c08CheckOnly(ctx, res, dir, v, b, o) })
 		}
 	}
+	// --only on runs that reach the same lines more than once (a target named twice, a file and its package): the
+	// duplicate suppression must work the same with and without --only (multiset inclusion)
+	twice := [][]string{{"-Wall", "cat/pkg", "cat/pkg"}, {"-Wall", "cat/pkg/Makefile", "cat/pkg"}, {"-Wall", "-r", "cat", "cat/pkg"}, {"cat/pkg/Makefile", "cat/pkg/Makefile"}}
+	for i, o := range onlys {
+		for v := 0; v < 3; v++ {
+			v, o, b := v, o, twice[(i+v)%len(twice)]
+			jobs = append(jobs, func() {
+				c08CheckOnly(ctx, res, dir, v, b, o)
+				res.Count("run.only.target-reached-twice", 1)
+			})
+		}
+	}
 	// trees are created lazily by the first run that needs them: do that sequentially first
 	for v := 0; v < nvariants; v++ {
 		c08DoRun(ctx, dir, c08Run{v, []string{"--version"}})
